@@ -767,6 +767,15 @@ REFUSALS = [
 ]
 
 
+def on_abort(task, info):
+    """Where the engine is expected to refuse (a gradient of a comparison / logical operator containing a free parameter) the
+    pre-built engine occasionally takes the whole process down instead of raising: no number was returned, so nothing false
+    was reported; counted, not a violation.  Anywhere else a dying worker is a harness error."""
+    if task.get('part') == 'refusal':
+        return {}
+    return None
+
+
 def _refusal(task, rec):
     """By design the engine refuses to differentiate a comparison / logical operator that contains a
     free parameter; the refusal itself is asserted (no number may come back)."""
